@@ -1,6 +1,7 @@
 import Driver.J
 import CanVerif.Model.DbcText
 import CanVerif.Spec.DbcRT
+import CanVerif.Model.DbcStart
 open Lean CanVerif CanVerif.Dbc
 
 namespace D05
@@ -68,7 +69,15 @@ def valJ (v : ValLine) : Json :=
   J.obj [("id", J.ofNat v.id), ("name", .str (String.ofList v.name)),
          ("entries", J.ofList (v.entries.map fun (k, t) => J.ofList [J.ofInt k, .str (String.ofList t)]))]
 
+/-- canonical form of a decimal for comparison with `Decimal.normalize()`: no trailing zeros in the coefficient, zero is +0E0 -/
+partial def normDec (d : Dec) : Dec :=
+  if d.coeff == 0 then ⟨false, 0, 0⟩
+  else if d.coeff % 10 == 0 then normDec ⟨d.neg, d.coeff / 10, d.exp + 1⟩ else d
+
+def optDec (j : Json) : Except String (Option Dec) := if J.isNull j then pure none else some <$> decOf j
+
 /-- ops:
+"start": c = {"size","signed","factor","offset","min","max","initial","dflt"}; i = {"attr": raw number written | null, "initial": what comes back}
 "sg":   c = {"sg": SgLine}; i = {"line": text of the line in the file, "parsed": SgLine the real reader makes of it | null}
 "bo":   c = {"bo": BoLine}; i likewise
 "val":  c = {"val": ValLine}; i likewise
@@ -114,6 +123,16 @@ def handle (op : String) (c i : Json) : Except String (Json × String) := do
                     ("read", J.ofList ((readFrames (lines.map String.toList)).map blockJ))]
     let rd ← (← J.arr (← J.key i "read")).mapM blockOf
     pure (m, if SpecRT.blocksSame rd bs then "ok" else "fail: frames or signals of the frame section read back differently")
+  | "start" =>
+    let g : StartSig := { s := { size := ← J.nat (← J.key c "size"), signed := ← J.bool (← J.key c "signed"), factor := ← decOf (← J.key c "factor"),
+                                 offset := ← decOf (← J.key c "offset") },
+                          min := ← decOf (← J.key c "min"), max := ← decOf (← J.key c "max"), initial := ← decOf (← J.key c "initial") }
+    let dflt ← optDec (← J.key c "dflt")
+    let w := g.writeStart dflt
+    let m := J.obj [("attr", J.ofOptInt w), ("initial", decJ (normDec (g.readStart w dflt)))]
+    if !J.isNull (J.keyD i "exc" Json.null) then return (m, "fail: the round trip raised")
+    let back ← decOf (← J.key i "initial")
+    pure (m, if SpecRT.decEq back g.initial then "ok" else "fail: the initial value does not survive the DBC round trip")
   | "rt" =>
     let exc := ← J.key i "exc"
     let err ← J.bool (← J.key i "err")
